@@ -64,6 +64,7 @@ def build_check(cid):
         libs += [lib["a"]]
     else:
         libs += ["-L" + lib["dir"], "-lspq", "-Wl,-rpath," + lib["dir"], "-rdynamic", "-ldl"]
+    libs += ["-Wl," + ",".join("--wrap=" + w for w in build_lib.WRAP)]
     libs += ["-lm", "-lquadmath", "-lpthread"] + spec.get("ldflags", [])
     tmp = exe + ".tmp%d" % os.getpid()
     cmd = [CXX] + flags + [src] + extra_src + ["-o", tmp] + libs
